@@ -285,6 +285,7 @@ func (r *Router) deployTargetsIntoService(service *Service, targetSlot TargetSlo
 
 	err = r.installService(service)
 	if err != nil {
+		lb.Dispose()
 		return err
 	}
 	verifYield("deploy:installed", lb)
